@@ -15,7 +15,7 @@ STUBS = ["pysam.AlignmentFile / AlignedSegment -> contract stubs: header['RG'] l
          "everything inside pysam/htslib (BAM/CRAM decoding, CIGAR -> aligned pairs, fetch overlap, clipping) is outside the claim"]
 ASSUMES = ["the expected matrix is a z3 term over ALL read variables (fold over alignments in file order); the obligation is pc => expected == observed, so attributes the code never looked at are universally quantified",
            "bases range over {REF, ALT, N}; read names over 2 values; 3 read groups (two for sample A, one for sample B)"]
-BOUNDS = {"quick": "2 alignments x 1 SNV, three combinations of the keep flags (thorough: all eight), MAPQ and threshold symbolic in 0..2, id field SM and ID, either sample; pool of two samples; reference mismatch injected at any aligned site",
+BOUNDS = {"quick": "2 alignments x 1 SNV, read groups {rg0->A, rg2->B}, bases {REF, ALT} (thorough: 3 read groups, bases {REF, ALT, N}), four combinations of the keep flags (thorough: all eight), MAPQ and threshold symbolic in 0..2, id field SM and ID, either sample; pool of two samples; reference mismatch injected at any aligned site",
           "thorough": "2 alignments x 2 SNVs and 3 alignments x 1 SNV"}
 OUTSIDE = "htslib decoding, CIGAR handling, fetch overlap semantics, CRAM reference lookup (pysam); phred-based probabilities (float)"
 TASKS_PER_CHILD = 2
@@ -26,16 +26,20 @@ GAP, NCODE = -1, 2
 
 def configs(tier):
     out = []
-    shapes = [(2, 1)] if tier == "quick" else [(2, 2), (3, 1)]
-    for k, ns in shapes:
+    if tier == "quick":
+        for idf, want in (("SM", "A"), ("ID", "rg2")):
+            for skips in ((True, True, True), (False, True, True), (True, False, True), (True, True, False)):
+                out.append(dict(group="extract", k=2, ns=1, idf=idf, want=want, mismatch=False, skips=list(skips), small=True))
+            out.append(dict(group="extract", k=2, ns=1, idf=idf, want=want, mismatch=True, skips=[True, True, True], small=True))
+        out.append(dict(group="encode", k=2, ns=1, small=True))
+        return out
+    for k, ns in [(2, 2), (3, 1)]:
         for idf in ("SM", "ID"):
             for want in (("A", "B") if idf == "SM" else ("rg0", "rg2")):
                 for mism in (False, True):
-                    for skips in (itertools.product((False, True), repeat=3) if tier != "quick" else [(True, True, True), (False, False, False), (True, False, True)]):
-                        if tier == "quick" and (idf, want) not in (("SM", "A"), ("ID", "rg2")):
-                            continue
-                        out.append(dict(group="extract", k=k, ns=ns, idf=idf, want=want, mismatch=mism, skips=list(skips)))
-    out.append(dict(group="encode", k=2, ns=1))
+                    for skips in itertools.product((False, True), repeat=3):
+                        out.append(dict(group="extract", k=k, ns=ns, idf=idf, want=want, mismatch=mism, skips=list(skips), small=(k == 3)))
+    out.append(dict(group="encode", k=2, ns=2, small=False))
     return out
 
 
@@ -56,6 +60,9 @@ class _Locus:
 
     def count_alleles(self):
         return [2] * len(self.positions)
+
+
+SMALL = {"on": False}  # quick tier: read groups {rg0, rg2}, bases {A, C}
 
 
 class SymRead:
@@ -81,7 +88,8 @@ class SymRead:
 
     def get_tag(self, tag):
         assert tag == "RG"
-        return "rg%d" % int(self._i("rg", 0, 2))
+        r = int(self._i("rg", 0, 2))
+        return "rg%d" % r
 
     @property
     def qname(self):
@@ -124,8 +132,10 @@ def _domain(k, mismatch):
     for i in range(k):
         v = _vars(i, mismatch)
         cs += [v["mapq"] >= 0, v["mapq"] <= 2, v["rg"] >= 0, v["rg"] <= 2, v["qn"] >= 0, v["qn"] <= 1]
+        if SMALL["on"]:
+            cs += [v["rg"] != 1]
         for j in range(2):
-            cs += [v["b%d" % j] >= 0, v["b%d" % j] <= 2]
+            cs += [v["b%d" % j] >= 0, v["b%d" % j] <= (1 if SMALL["on"] else 2)]
     return cs
 
 
@@ -197,6 +207,7 @@ def _run_extract(c, col):
     site = "mchap.io.bam.extract_read_variants"
     k, idf, want, mm, ns = c["k"], c["idf"], c["want"], c["mismatch"], c["ns"]
     skd, skq, sks = c["skips"]
+    SMALL["on"] = bool(c.get("small"))
 
     def body(ctx):
         minq = E.fresh_int(ctx, "minq", 0, 2)
@@ -255,6 +266,7 @@ def _run_encode(c, col):
 
     def body(ctx):
         ns = c.get("ns", 1)
+        SMALL["on"] = bool(c.get("small"))
         f = SymFile(ctx, k, False, ns)
         for cst in _domain(k, False):
             ctx.assume(cst)
